@@ -4,7 +4,7 @@ import ast
 from ..core.model import AnchorError, FuncInfo
 from ..core.cfg import walk_shallow, cfg_of
 from ..core.facts import U, atoms_of, atom_expr
-from ..engine import fn_name, kwarg, local_defs, returns_of, stmts_in, const_str, vars_assigned_from
+from ..engine import argn, fn_name, kwarg, local_defs, returns_of, stmts_in, const_str, vars_assigned_from
 from ..kinds import cursor as K
 from . import common
 
@@ -298,7 +298,7 @@ def s6(ctx, rep):
     def push_of(evname):
         from ..engine import deref
         return ctx.sel_pred(lambda x: isinstance(x, ast.Call) and fn_name(x) == "push" and x.args and
-                            isinstance(deref(f, x.args[0]), ast.Call) and fn_name(deref(f, x.args[0])) == evname, f"push({evname})")
+                            isinstance(deref(f, argn(x, 0)), ast.Call) and fn_name(deref(f, argn(x, 0))) == evname, f"push({evname})")
     proc = ctx.sel_call(selfcall="_process_events_until_now")
     a = ctx.nodes(f, push_of("StopEvent"), "must", 0)
     c = ctx.nodes(f, push_of("CompleteEvent"), "may", 0)
@@ -325,7 +325,7 @@ def s6(ctx, rep):
     ok = bool(bn) and p is None
     if ok:
         call = ctx.calls_in(g, method="remove_events", recv="SimulatorState")[0][1]
-        ok = call.args and U(call.args[0]) == "trial_id" or (kwarg(call, "trial_id") is not None and U(kwarg(call, "trial_id")) == "trial_id")
+        ok = call.args and U(argn(call, 0)) == "trial_id" or (kwarg(call, "trial_id") is not None and U(kwarg(call, "trial_id")) == "trial_id")
     rep.put(ok, "S6", "must_follow", "SimulatorBackend._process_stop_event → remove_events(trial_id)", g, None,
             "every stop removes the trial's later events")
     # dispatch: StopEvent handled by _process_stop_event
@@ -417,8 +417,8 @@ def s7(ctx, rep):
     if not app:
         raise AnchorError("_BlackboxSimulatorBackend._run_job_and_collect_results: append to the returned list not found")
     ra = ["self.resource_attr"] + vars_assigned_from(g, lambda e: U(e) == "self.resource_attr")
-    lv = vars_assigned_from(g, lambda e: isinstance(e, ast.Call) and fn_name(e) == "int" and e.args and isinstance(e.args[0], ast.Subscript)
-                            and U(e.args[0].slice) in ra)
+    lv = vars_assigned_from(g, lambda e: isinstance(e, ast.Call) and fn_name(e) == "int" and e.args and isinstance(argn(e, 0), ast.Subscript)
+                            and U(argn(e, 0).slice) in ra)
     for nid, x in app:
         ok = ctx.has_fact(g, nid, lambda a: a[0] == "lt" and a[1] == pv and a[2] in lv)
         rep.put(ok, "S7", "guarded_by", "_BlackboxSimulatorBackend._run_job_and_collect_results: keep level | level > paused level",
@@ -447,7 +447,7 @@ def s8(ctx, rep, clause="S8"):
     rep.put(p is None and not in_loop, clause, "must_follow", "StoreResultsCallback.on_trial_result: one row per delivery", f, call,
             "self.results.append on every normal path, outside any loop",
             "a path through on_trial_result appends no row (or several)", witness=cfg.describe_path(p) if p else None)
-    rowvar = call.args[0].id if call.args and isinstance(call.args[0], ast.Name) else None
+    rowvar = argn(call, 0).id if call.args and isinstance(argn(call, 0), ast.Name) else None
     param = [p_ for p_ in f.params if p_ == "result"]
     # the row is a copy of the parameter, made before the first mutation
     COPY = ("copy", "deepcopy", "dict")
